@@ -62,6 +62,19 @@ func runBounded(prop, tier string, seed int, replayDir string, findings []Findin
 		}
 		byPkg[string(m[1])] = append(byPkg[string(m[1])], f)
 	}
+	// shared helper files (bounded/common) are injected for the packages they belong to
+	common, _ := filepath.Glob(filepath.Join(verifDir, "bounded", "common", "*_test.go"))
+	for _, f := range common {
+		data, err := os.ReadFile(f)
+		if err != nil {
+			continue
+		}
+		if m := pkgHdrRe.FindSubmatch(data); m != nil {
+			if _, used := byPkg[string(m[1])]; used {
+				byPkg[string(m[1])] = append(byPkg[string(m[1])], f)
+			}
+		}
+	}
 	var pkgs []string
 	for p := range byPkg {
 		pkgs = append(pkgs, p)
